@@ -224,6 +224,8 @@ structure WConn where
   opn : List Nat := []
   cEnd : List Nat := []
   sEnd : List Nat := []
+  /-- streams the server has reset -/
+  sRst : List Nat := []
   limit : Nat := initialMaxConcurrentStreams
   greeted : Bool := false
   /-- requests the pool assigned to this connection whose HEADERS are not yet on the wire -/
@@ -244,7 +246,7 @@ def WConn.upd (w : WConn) (c : Nat) : Ev → WConn
       { w with cEnd := id :: w.cEnd, opn := if id ∈ w.sEnd then w.opn.erase id else w.opn }
     else w
   | .crst c' id _ => if c' = c then { w with opn := w.opn.erase id } else w
-  | .srst c' id _ => if c' = c then { w with opn := w.opn.erase id } else w
+  | .srst c' id _ => if c' = c then { w with opn := w.opn.erase id, sRst := id :: w.sRst } else w
   | .sresp c' id es =>
     if c' = c ∧ es then
       { w with sEnd := id :: w.sEnd, opn := if id ∈ w.cEnd then w.opn.erase id else w.opn }
@@ -283,7 +285,7 @@ structure Mon where
   strict : Bool := false
   w : Nat → WConn := fun _ => {}
   cc : Nat → CC := fun _ => {}
-  /-- requests reserved on the connection and not yet admitted, in arrival order; the head
+  /-- requests reserved on the connection and not yet let through, in arrival order; the head
   holds `reqHeaderMu` (it has given up its reservation and sits in `awaitOpenSlotForStreamLocked`) -/
   q : Nat → List Nat := fun _ => []
   wantPing : Option Nat := none
@@ -323,7 +325,7 @@ def Mon.mech (m : Mon) : Ev → Except String Mon
     let cc := m.cc c
     let q := m.q c
     if !(r ∈ q) then .error s!"hdr: request {r} was not assigned to conn {c}"
-    else if cc.await != .go then .error s!"hdr: model of conn {c} does not admit a stream (count {cc.count} limit {cc.maxConc})"
+    else if cc.await != .go then .error s!"hdr: model of conn {c} does not open a stream (count {cc.count} limit {cc.maxConc})"
     else if cc.nextID != id then .error s!"hdr: stream id {id}, model expects {cc.nextID}"
     else
       let q' := q.erase r
@@ -335,10 +337,11 @@ def Mon.mech (m : Mon) : Ev → Except String Mon
   | .crst c id code =>
     let cc := m.cc c
     if !(id ∈ cc.streams) then
-      -- A stream the peer has both ended and reset while the request body was still open:
-      -- `writeRequest` selects between `peerClosed` and `abort` (both ready), so an
-      -- RST_STREAM(NO_ERROR) may follow the server's reset. Nothing else is reset twice.
-      if code = 0 ∧ id < cc.nextID ∧ id ∈ (m.w c).sEnd then .ok m
+      -- A stream the peer has ended / reset while the request body was still open:
+      -- `writeRequest` selects between `peerClosed`, `abort`, `ctx.Done` (several ready), so an
+      -- RST_STREAM(NO_ERROR) — or (CANCEL) when the context is done as well — may follow the
+      -- server's reset. Frames of the stream were read, so no reset is left pending.
+      if id < cc.nextID ∧ (id ∈ (m.w c).sEnd ∨ id ∈ (m.w c).sRst) then .ok m
       else .error s!"crst: stream {id} is not in the model of conn {c}"
     else if code = 8 then
       let (cc', ping) := cc.noteCancelReset id
